@@ -56,7 +56,7 @@ def refdiff(p):
     sig = ints('v', n)
     pre = []
     lo, hi = p.get('lo', -2 ** 40), p.get('hi', 2 ** 40)   # int64 accumulators (array('q') state) stay in range: overflow is outside every claim
-    pre += rng([a for a, _ in sig], lo, hi)
+    pre += rng([a for a, _ in sig], lo, hi) if not p.get('unbounded') else []
     if p.get('nondecr'):
         pre += ['%s <= %s' % (sig[i][0], sig[i + 1][0]) for i in range(n - 1)]
         if n:
